@@ -103,6 +103,13 @@ def oracle(case, outs):
                 return "%s: outputs differ: %s -> %s  vs  %s -> %s" % (kind, case.lines[0][:300], dests[0].hex(), case.lines[i][:300], dests[i].hex())
         if kind == "dep" and parsed[0][0] != parsed[1][0]:
             return "deprecated call results differ: %s vs %s" % (parsed[0][0], parsed[1][0])
+        if kind == "chunk":
+            # the same calls: not only the final bytes but what has been handed over after every call is independent of how the
+            # destination splits the writes
+            for i in range(1, len(parsed)):
+                if parsed[i][0] != parsed[0][0]:
+                    return "chunk: per-call results / byte counts differ between write scripts: %s -> %s  vs  %s -> %s" % (
+                        case.lines[0][-200:], " ".join(parsed[0][0])[:300], case.lines[i][-200:], " ".join(parsed[i][0])[:300])
         return None
     # opt: ids and payloads unchanged and in the same order; explicit widths honoured exactly
     spec = spec_of_line(case.lines[0])
